@@ -871,6 +871,58 @@ Proof.
   destruct (scheduleCode r codes repID n =? 0); reflexivity.
 Qed.
 
+(** A video request by $Time$ and an audio request by $Time$, any start time and start number. *)
+Lemma validCycle_of_codeValid codes : forallb codeValid codes = true -> Forall validCycle codes.
+Proof.
+  intros Hval. apply Forall_forall. intros ss Hin. rewrite forallb_forall in Hval. specialize (Hval ss Hin).
+  unfold codeValid in Hval. unfold validCycle. lia.
+Qed.
+
+Lemma segAnswer_time_repaired c codes repID n now base :
+  0 <= startS c -> 0 <= startNr c -> startNr c + n < two32 -> repDuration r < two64 ->
+  codes <> [] -> forallb codeValid codes = true ->
+  0 <= n -> (startS c + S r n) * 1000 < two63 -> ts r < two32 -> startS c * 1000 <= now ->
+  segAnswer true r loopMS c codes repID None ByTime (S r n) now base =
+  timedAnswer (checkTime (E r n + startS c * ts r) (ts r) now (tsbdS c) (ato c)) (scheduled r codes repID n base).
+Proof.
+  intros Hst Hsn Hn32 HD Hne Hval Hn HS Hts Hnow. unfold segAnswer. rewrite Hval. cbn [negb].
+  destruct (now <? startS c * 1000) eqn:E0; [lia|]. destruct codes as [|c0 cs] eqn:Ec; [congruence|]. rewrite <- Ec in *.
+  pose proof (validCycle_of_codeValid codes Hval) as Hgood.
+  pose proof (S_nonneg r loopMS n W Hn) as HS0. pose proof (wf_ts _ _ W).
+  unfold findSegMeta. rewrite lookup_time by (unfold two63, two64 in *; lia).
+  rewrite (segMetaFromTime_spec r loopMS W) by lia.
+  destruct (checkTime (E r n + startS c * ts r) (ts r) now (tsbdS c) (ato c)); cbn [timed timedAnswer]; [|reflexivity|reflexivity].
+  unfold calcStatusCode. cbn [newTime mtimescale newNr].
+  rewrite i64_id by (unfold two63 in *; lia). rewrite !u32_id by lia.
+  rewrite (statusLoop_repaired c repID n codes Hst HD Hgood Hn HS Hts). unfold scheduled.
+  destruct (scheduleCode r codes repID n =? 0); reflexivity.
+Qed.
+
+Lemma segAnswer_audio_time_repaired c codes repID ats sd t n now base :
+  0 <= startS c -> 0 <= startNr c -> startNr c + n < two32 -> repDuration r < two64 ->
+  codes <> [] -> forallb codeValid codes = true ->
+  0 <= n -> (startS c + S r n) * 1000 < two63 -> ts r < two32 -> startS c * 1000 <= now ->
+  0 < ats -> 0 < sd -> t mod sd = 0 -> 0 <= t -> t * ts r < two64 ->
+  S r n <= t * ts r / ats < E r n ->
+  segAnswer true r loopMS c codes repID (Some (ats, sd)) ByTime t now base =
+  timedAnswer (checkTime (E r n + startS c * ts r) (ts r) now (tsbdS c) (ato c)) (scheduled r codes repID n base).
+Proof.
+  intros Hst Hsn Hn32 HD Hne Hval Hn HS Hts Hnow Hats Hsd Hmod Ht Htb HR.
+  unfold segAnswer. rewrite Hval. cbn [negb].
+  destruct (now <? startS c * 1000) eqn:E0; [lia|]. destruct codes as [|c0 cs] eqn:Ec; [congruence|]. rewrite <- Ec in *.
+  pose proof (validCycle_of_codeValid codes Hval) as Hgood.
+  pose proof (wf_ts _ _ W). pose proof (S_nonneg r loopMS n W Hn) as HS0.
+  unfold findSegMeta. rewrite u64_id by (unfold two64 in *; nia).
+  rewrite (refMetaFromTime_spec r loopMS W c ats sd t n now) by (try assumption; lia).
+  destruct (checkTime (E r n + startS c * ts r) (ts r) now (tsbdS c) (ato c)); cbn [timed timedAnswer]; [|reflexivity|reflexivity].
+  unfold calcStatusCode. cbn [newTime mtimescale newNr].
+  rewrite i64_id by (unfold two63 in *; lia).
+  rewrite (u32_id n) by lia. rewrite (u32_id (startNr c)) by lia. rewrite (u32_id (n + startNr c)) by lia.
+  rewrite (u32_id (ts r)) by lia. replace (n + startNr c) with (startNr c + n) by lia.
+  rewrite (statusLoop_repaired c repID n codes Hst HD Hgood Hn HS Hts). unfold scheduled.
+  destruct (scheduleCode r codes repID n =? 0); reflexivity.
+Qed.
+
 End Repaired.
 
 (** with the repair the former witnesses follow the schedule *)
